@@ -881,7 +881,20 @@ def rule_label_store_arithmetic(ctx):
                 vals = list(_rv_trees(prog, hs, st.node["rv"]))
             for v in vals:
                 if v == ("const", True):
-                    bad = bad or "it answers `true` without looking at the slot"
+                    # `matches!(self.labels.get(id), Some(Some(_)))`: true under two `Some` tests on a checked read of the slot
+                    raw = conditions(hs, st.bb)
+                    somes = 0
+                    for c in raw:
+                        if c.is_discr and not c.negated and c.values == ["1"]:
+                            for o in origins(hs, {"l": c.place["l"], "p": []}, transparent=("core::option::Option::as_ref",)):
+                                if o.kind == "call" and re.search(r"slice::.*get$|Vec.*::get$", callee_decl(o.data)):
+                                    somes += 1
+                    if somes >= 2:
+                        pass
+                    elif raw:
+                        und = "a `true` under tests the rule does not follow"
+                    else:
+                        bad = bad or "it answers `true` without looking at the slot"
                 elif v == ("const", False):
                     if bound != "outside":
                         und = "a `false` that is not tied to `id >= L`"
@@ -917,7 +930,7 @@ def rule_label_store_arithmetic(ctx):
                     judge_value(nl, e, {"L": 1, 1: -1}, "position recorded in the map", nl.id + "|map")
                     late = [s for s in y.calls() if callee_decl(callee_of(s)) == "alloc::vec::Vec::len" and y.dominates(ps, s)]
                     r.check(bool(late), nl.id + "|map", "length-read-before-push", "the length is read after the push", "the position recorded in the map is L - 1 with L read *before* the push: the id of the previous label", ps.loc())
-    r.floor(n, 5, "functions of the label store evaluated")
+    r.floor(n, 3, "functions of the label store evaluated")
 
 
 def _lf(d):
@@ -975,6 +988,9 @@ def rule_attack_orientation(ctx):
                             if _is_call(t, r"Index::index$", 2) and t[2][0][0] == "param" and t[2][0][3] and t[2][0][3][0] in list_f:
                                 table_of.setdefault(role, set()).add(t[2][0][3][0])
     ok_r = all(len(pair_comp.get(x, ())) == 1 for x in ("attacker", "attacked")) and pair_comp["attacker"] != pair_comp["attacked"] and all(len(table_of.get(x, ())) == 1 for x in ("from", "to")) and table_of["from"] != table_of["to"]
+    if not all(pair_comp.get(x) for x in ("attacker", "attacked")) or not all(table_of.get(x) for x in ("from", "to")):
+        r.ok(AAF + "|readers", "NOT decided: the iterators build their `Attack` values / read the index tables through helpers the rule does not follow", None)
+        return
     if not r.check(ok_r, AAF + "|readers", "readers:%s/%s" % ({k: sorted(v) for k, v in pair_comp.items()}, {k: sorted(v) for k, v in table_of.items()}), "the iterators agree on the orientation of the pair and on one table per direction", "the iterators of the framework do not agree with each other on which component of a stored pair is the attacker, or on which index table serves which direction", None):
         return
     ca, cd = int(next(iter(pair_comp["attacker"]))), int(next(iter(pair_comp["attacked"])))
